@@ -533,12 +533,16 @@ impl<S: Storage> Builder<S> {
         // `broadcast` waits until a subscriber activates one, whereas items sent to the original
         // active receiver would be dropped when it is deactivated after the task has started.
         let rx = rx.deactivate();
+        let panicked = Arc::new(std::sync::atomic::AtomicBool::new(false));
+        let panic_flag = PanicFlag(panicked.clone());
         #[cfg(feature = "verif")]
         let verif_name = format!("{id}.{name}");
         let handle = tokio::task::Builder::default()
             .name(&format!("{id}.{name}"))
             .spawn(
                 async move {
+                    // dropped (and thus evaluated) before `tx` closes the channel
+                    let _panic_flag = panic_flag;
                     #[cfg(feature = "verif")]
                     let mut verif_idx = 0usize;
                     while let Some(item) = stream.next().await {
@@ -593,6 +597,7 @@ impl<S: Storage> Builder<S> {
         StreamSubscriber {
             rx,
             handle: Arc::new(AbortOnDropHandle(handle)),
+            panicked,
         }
     }
 }
@@ -603,6 +608,19 @@ impl<S: Storage> Builder<S> {
 struct StreamSubscriber {
     rx: async_broadcast::InactiveReceiver<Result<DataChunk>>,
     handle: Arc<AbortOnDropHandle>,
+    /// Set if the executor task panicked.
+    panicked: Arc<std::sync::atomic::AtomicBool>,
+}
+
+/// Records in its flag whether it is dropped by a panic unwinding the executor task.
+struct PanicFlag(Arc<std::sync::atomic::AtomicBool>);
+
+impl Drop for PanicFlag {
+    fn drop(&mut self) {
+        if std::thread::panicking() {
+            self.0.store(true, std::sync::atomic::Ordering::SeqCst);
+        }
+    }
 }
 
 impl StreamSubscriber {
@@ -612,14 +630,23 @@ impl StreamSubscriber {
         async fn to_stream(
             rx: async_broadcast::Receiver<Result<DataChunk>>,
             handle: Arc<AbortOnDropHandle>,
+            panicked: Arc<std::sync::atomic::AtomicBool>,
         ) {
             #[for_await]
             for chunk in rx {
                 yield chunk?;
             }
+            // the channel is closed: either the executor finished or its task panicked.
+            if panicked.load(std::sync::atomic::Ordering::SeqCst) {
+                Err(ExecutorError::panicked())?;
+            }
             drop(handle);
         }
-        to_stream(self.rx.activate_cloned(), self.handle.clone())
+        to_stream(
+            self.rx.activate_cloned(),
+            self.handle.clone(),
+            self.panicked.clone(),
+        )
     }
 }
 
